@@ -202,6 +202,9 @@ def native_out(c):
         return None if c['how'] != 'value' else V.value_of(c, 'json')
     if g == 'objarr':
         return V.SKIP
+    if g == 'time':
+        import datetime
+        return datetime.time(17, 0, 0, c['us'])          # the native value the probe text denotes
     v = V.value_of(c, 'json')
     if g == 'occ' and c['maxo'] == 1 and v is not None:
         return v[0] if len(v) == 1 else V.SKIP          # a non-repeated member holds one value
@@ -254,6 +257,8 @@ def outputs(ctx):
         for pos in poss:
             if pos in ('array', 'attr', 'attr_required') and v is None:
                 continue
+            if pos in ('attr', 'attr_required') and T.get('k') == 'obj':
+                continue            # an attribute holds text, not an object
             for fam in fams:
                 key = (json.dumps(T, sort_keys=True, default=str), pos, fam)
                 a = apps.get(key)
